@@ -75,6 +75,10 @@ func (x *Exec) localSyms(t *Term) map[*Term]bool {
 
 // relevant: cone of influence over local symbols. Dropping hypotheses is always sound for a validity proof.
 func (x *Exec) relevant(assumes []*Term, goalParts ...*Term) []*Term {
+	return x.relevantDefs(assumes, nil, goalParts...)
+}
+
+func (x *Exec) relevantDefs(assumes []*Term, defs []map[*Term]bool, goalParts ...*Term) []*Term {
 	rel := map[*Term]bool{}
 	for _, g := range goalParts {
 		for s := range x.localSyms(g) {
@@ -90,10 +94,20 @@ func (x *Exec) relevant(assumes []*Term, goalParts ...*Term) []*Term {
 			}
 			syms := x.localSyms(a)
 			take := len(syms) == 0
-			for s := range syms {
-				if rel[s] {
-					take = true
-					break
+			if i < len(defs) && defs[i] != nil {
+				// a defining hypothesis: relevant only through the symbols it defines
+				for s := range defs[i] {
+					if rel[s] {
+						take = true
+						break
+					}
+				}
+			} else {
+				for s := range syms {
+					if rel[s] {
+						take = true
+						break
+					}
 				}
 			}
 			if take {
@@ -221,7 +235,7 @@ func (ob *Obligation) Script(getModel bool) string {
 				goal = x.o.Subst(goal, m2)
 				as = append(as, eqs...)
 			}
-			rel := x.relevant(as, goal, ob.Case)
+			rel := x.relevantDefs(as, x.assumeDefs, goal, ob.Case)
 			for _, a := range rel {
 				s.Assert(a)
 			}
@@ -230,7 +244,7 @@ func (ob *Obligation) Script(getModel bool) string {
 			}
 			s.Assert(ob.Case)
 		} else {
-			rel := x.relevant(x.assumes[:ob.NAssume], goal)
+			rel := x.relevantDefs(x.assumes[:ob.NAssume], x.assumeDefs, goal)
 			for _, a := range rel {
 				s.Assert(a)
 			}
@@ -699,3 +713,5 @@ func SolveAll(obls []*Obligation, timeoutS int, workers int, keepScripts bool) {
 	close(ch)
 	wg.Wait()
 }
+
+func contextBackground() context.Context { return context.Background() }
